@@ -91,3 +91,25 @@ Definition append (index_before_roll : bool) (max : nat) (s : dpst) (r : N) (ind
 
 (* a pack walks (Reindex) iff it holds no garbage *)
 Definition walks (s : dpst) : bool := forallb (fun p => negb (memN 0%N p)) (packs s).
+
+(* ---- encrypt: an upload writes the encrypted blob, then the meta blob that maps the plaintext ref to it, then the index
+   row; each of the three writes may fail, and the call stops at the first failure.  The recovery procedure rebuilds the
+   index from the meta blobs alone. ---- *)
+Record encst := { e_metas : list nat; e_index : list nat }.
+Inductive efail := ENoFail | EFailBlob | EFailMeta | EFailIndex.
+Definition enc_receive (meta_first : bool) (s : encst) (r : nat) (f : efail) : encst * bool (* acknowledged *) :=
+  if existsb (Nat.eqb r) (e_index s) then (s, true) (* the duplicate check answers from the index *)
+  else match f with
+       | EFailBlob => (s, false)
+       | EFailMeta => if meta_first then (s, false) else ({| e_metas := e_metas s; e_index := r :: e_index s |}, false)
+       | EFailIndex => if meta_first then ({| e_metas := r :: e_metas s; e_index := e_index s |}, false) else (s, false)
+       | ENoFail => ({| e_metas := r :: e_metas s; e_index := r :: e_index s |}, true)
+       end.
+Definition enc_rebuild (s : encst) : encst := {| e_metas := e_metas s; e_index := e_metas s |}.
+Fixpoint enc_run (meta_first : bool) (s : encst) (l : list (nat * efail)) : encst * list nat (* acknowledged refs *) :=
+  match l with
+  | [] => (s, [])
+  | (r, f) :: rest => let '(s1, ack) := enc_receive meta_first s r f in
+                      let '(s2, acks) := enc_run meta_first s1 rest in (s2, if ack then r :: acks else acks)
+  end.
+Definition enc_serves (s : encst) (r : nat) : bool := existsb (Nat.eqb r) (e_index s).
